@@ -62,7 +62,7 @@ import core
 
 MANIFEST = dict(
     technique="TLA+ spec over code points (dpkg reference Verrevcmp/DpkgCmp + implementation layer transcribed from NativeVersion + Canon hash-key design + object layer with Assign recomputing the cached key) model-checked by TLC on all pairs/triples up to a bound and on the closed state space of two mutable objects; TLC-emitted cases and assignments replayed into Version/version_compare/hash on long-lived, re-used, mutated objects; recorded comparisons over the full alphabet validated by TLC (TraceDpkgVersion); dpkg --compare-versions as external oracle",
-    text="TLC enumerates every pair of single-component versions up to 3 (thorough 4) characters over 0 1 9 A a . ~, every pair of complete versions (4 epochs x 3-6 revisions x upstream <= 2 with ':' and '-' where allowed) and every triple of a smaller universe, and checks that the transcription of NativeVersion's algorithm agrees with dpkg's, that the order is antisymmetric, total and transitive, and that the canonical hash key is exactly the kernel of the order (and that the implementation's key induces the same partition). An object-level layer (object = string + cached key; assignment of full_version or of one component recomputes the key) is explored to a fixed point, so agreement and hash consistency hold after any sequence of assignments. A seed-dependent sample of the enumerated pairs plus all pairs of the small universe is replayed, with order-isomorphic concrete characters, into the six rich comparisons, version_compare and hash(): every pair twice with other comparisons in between, both operand orders, on pooled long-lived objects that meet many partners and are partly re-created, with plain-string operands, and on short-lived temporaries; TLC's assignment transitions are replayed as compare / assign / compare on the same object. Thousands of random and near-equal pairs/triples/quadruples (length up to ~45, leading zeros, '~' chains, epoch 0 vs absent, revision 0 vs absent, epochs beyond 2^32) are executed on the real code the same way, including an object that is walked through every string of the trace by assignment, and each recorded comparison is validated by TLC on the concrete code points of the string the object holds at that moment.",
+    text="TLC enumerates every pair of single-component versions up to 3 (thorough 4) characters over 0 1 9 a . ~, every pair of complete versions (4 epochs x 3-6 revisions x upstream <= 2 over 0 1 ~, thorough 0 1 A a + . ~, with ':' and '-' where allowed) and every triple of a smaller universe, and checks that the transcription of NativeVersion's algorithm agrees with dpkg's, that the order is antisymmetric, total and transitive, and that the canonical hash key is exactly the kernel of the order (and that the implementation's key induces the same partition). An object-level layer (object = string + cached key; assignment of full_version or of one component recomputes the key) is explored to a fixed point, so agreement and hash consistency hold after any sequence of assignments. A seed-dependent sample of the enumerated pairs plus all pairs of the small universe is replayed, with order-isomorphic concrete characters, into the six rich comparisons, version_compare and hash(): every pair twice with other comparisons in between, both operand orders, on pooled long-lived objects that meet many partners and are partly re-created, with plain-string operands, and on short-lived temporaries; TLC's assignment transitions are replayed as compare / assign / compare on the same object. Thousands of random and near-equal pairs/triples/quadruples (length up to ~45, leading zeros, '~' chains, epoch 0 vs absent, revision 0 vs absent, epochs beyond 2^32) are executed on the real code the same way, including an object that is walked through every string of the trace by assignment, and each recorded comparison is validated by TLC on the concrete code points of the string the object holds at that moment.",
     note="Small-scope for the exhaustive part (alphabet of 7-8 code points, bounded length; object layer: 48/80 versions, one mutated object); payload beyond it is sampled. Numbers are compared as digit strings in the reference (TLC integers are 32 bit); the implementation layer's int() is only model-checked on short runs. Trusted: TLC, the order-isomorphic concretizer, the observation wrapper, dpkg where present. Hash collisions of unequal versions are not a violation; an assignment that fails or recomposes another string (C14) only skips the dependent comparisons. Spec-level negative controls (HashOnString, TildeOrderZero, StaleKey) and corrupted control traces are required to fail in every run.",
     design="5 (C03)")
 
@@ -990,7 +990,7 @@ def run(ctx):
     rng = ctx.rng
     ctx.import_repo()
     ctx.assumptions += [
-        "exhaustive part is small-scope: 7-8 code points (0 1 9 A a . ~ / 0 1 a ~ + : -), bounded lengths; CASE sample chosen by a seed-dependent checksum class",
+        "exhaustive part is small-scope: 5-9 code points per configuration (0 1 9 a . ~ / 0 1 ~ : - / thorough 0 1 A a + . ~ : -), bounded lengths; CASE and MUT samples chosen by a seed-dependent checksum class; upper case and other digits/letters come in through the concretizer",
         "inputs are valid version strings per DESIGN D2 and outside its unspecified zone (re-checked by TLC: TDomain)",
         "concretization substitutes order-isomorphic code points (class and relative order kept, '0' fixed)",
         "hash collisions between unequal versions are allowed; only a == b => hash(a) == hash(b) is a verdict",
@@ -1005,7 +1005,7 @@ def run(ctx):
     # 2. design: bounded-exhaustive configurations; the same runs emit the cases to replay
     plan = ([("MC_DpkgVersion_parts.cfg", 24), ("MC_DpkgVersion_full.cfg", 40), ("MC_DpkgVersion_triples.cfg", 1)]
             if quick else
-            [("MC_DpkgVersion_parts_thorough.cfg", 300), ("MC_DpkgVersion_full_thorough.cfg", 150),
+            [("MC_DpkgVersion_parts_thorough.cfg", 100), ("MC_DpkgVersion_full_thorough.cfg", 150),
              ("MC_DpkgVersion_triples_thorough.cfg", 1)])
     nconc = 1 if quick else 2      # 1: canonical and random concretizations alternate
     replayed = 0
